@@ -52,3 +52,7 @@
 (define-fun ekeyOf ((g Str) (id Str) (s Str) (d Str) (l Str) (t Int)) Str (bjoin (scons lit_e (scons g (scons id (scons s (scons d (scons l (scons (byte1 t) snil))))))) sep0))
 (define-fun skeyOf ((g Str) (s Str) (d Str) (id Str) (l Str) (t Int)) Str (bjoin (scons lit_s (scons g (scons s (scons d (scons id (scons l (scons (byte1 t) snil))))))) sep0))
 (define-fun dkeyOf ((g Str) (s Str) (d Str) (id Str) (l Str) (t Int)) Str (bjoin (scons lit_d (scons g (scons d (scons s (scons id (scons l (scons (byte1 t) snil))))))) sep0))
+; a join starts with its first component
+(assert (forall ((h Str) (t SL)) (! (hasprefix (bjoin (scons h t) sep0) h) :pattern ((bjoin (scons h t) sep0)))))
+; second component of a split join (first two components NUL-free)
+(assert (forall ((a Str) (b Str) (t SL)) (! (=> (and (nozero a) (nozero b) ((_ is snil) t)) (= (slnth (bsplit (bjoin (scons a (scons b t)) sep0) sep0) 1) b)) :pattern ((bjoin (scons a (scons b t)) sep0)))))
